@@ -51,13 +51,14 @@ Definition go_to (s : tw) (line : nat) : tw * list cmd :=
   (mktw line (tw_hidden s) (Nat.max (tw_max s) line) (tw_clear s) (tw_hide s),
    repeat LF (line - tw_cursor s) ++ repeat (Up 1%N) (tw_cursor s - line) ++ [CR]).
 
-(* WriteForLine(line, text) *)
+(* WriteForLine(line, text); writeAtCursor erases the row from column 0 and then writes the text
+   (order as repaired by fixes/C20-dec-margin.patch; the pinned tree wrote first and erased after) *)
 Definition tw_write (c : cfg) (s : tw) (line : nat) (t : text) : tw * list cmd :=
   let pre := if (tw_hide s && negb (tw_hidden s))%bool then [HideCur] else [] in
   let s1 := mktw (tw_cursor s) (tw_hidden s || tw_hide s)%bool (tw_max s) (tw_clear s) (tw_hide s) in
   let '(s2, mv) := go_to s1 line in
-  (s2, pre ++ mv ++ [Text (write_line_no_wrap (autotrim c) (cols c) t)]
-           ++ (if tw_clear s then [EraseEOL] else [])).
+  (s2, pre ++ mv ++ (if tw_clear s then [EraseEOL] else [])
+           ++ [Text (write_line_no_wrap (autotrim c) (cols c) t)]).
 
 (* Close() *)
 Definition tw_close (s : tw) : tw * list cmd :=
@@ -197,8 +198,7 @@ Fixpoint rows_show (c : cfg) (ups : list (nat * text)) (rws : list (list N)) (n 
 
 Definition fits (tc : tcfg) (c : cfg) (ups : list (nat * text)) : bool :=
   forallb (fun u => (wf_text (snd u)
-                     && (length (visible (write_line_no_wrap (autotrim c) (cols c) (snd u)))
-                         + (if dec tc then 1 else 0) <=? width tc))%bool) ups.
+                     && (length (visible (write_line_no_wrap (autotrim c) (cols c) (snd u))) <=? width tc))%bool) ups.
 
 (* after every call: ground state, the cursor is on the line just written, every line shows its
    latest text and nothing below the lowest line is touched *)
@@ -217,8 +217,8 @@ Fixpoint live_ok (tc : tcfg) (c : cfg) (done todo : list (nat * text)) (e : scr 
   end.
 
 (* C20 on an observed sequence of output segments (one per WriteForLine, then Close) *)
-Definition C20_check_live_g (tg tc : tcfg) (c : cfg) (ups : list (nat * text)) (segs : list (list N)) : bool :=
-  if negb (fits tg c ups) then true else
+Definition C20_check_live (tc : tcfg) (c : cfg) (ups : list (nat * text)) (segs : list (list N)) : bool :=
+  if negb (fits tc c ups) then true else
   if negb (Nat.eqb (length segs) (S (length ups))) then false else
   match live_ok tc c [] ups (scr0, Ground) segs with
   | None => false
@@ -228,8 +228,6 @@ Definition C20_check_live_g (tg tc : tcfg) (c : cfg) (ups : list (nat * text)) (
        && (length (rows (fst e')) <=? S (max_line ups))
        && Nat.eqb (crow (fst e')) (S (max_line ups)) && Nat.eqb (ccol (fst e')) 0 && cvis (fst e'))%bool
   end.
-
-Definition C20_check_live (tc : tcfg) := C20_check_live_g tc tc.
 
 (* C20 on the observed output of BufferedTerm.Close / VirtualTerm.WriteToOutput *)
 Definition buffered_spec (c : cfg) (ups : list (nat * text)) : text :=
